@@ -16,7 +16,11 @@ RULE = ("Code-built schemas from valid specs under drawn permutations of `types=
         "optional argument without default, fewer than three positionals, extra required parameter, plus compatible "
         "**kwargs / *args forms) and validation must raise SchemaValidationError listing >= k errors, one naming each "
         "offending element (elements get unique generated names). Histories: register_resolver(good|bad, "
-        "allow_override=True) interleaved with validate(); model: valid iff no currently registered resolver is bad. "
+        "allow_override=True), register_default_resolver(type, good|bad) and a schema-wide default resolver (assigned before "
+        "the first validation) interleaved with validate(); model: the resolver in charge of a field is its own, else its "
+        "type's default, else the schema-wide one (the executor's precedence) - valid iff none in charge is bad. Some "
+        "violations are doubled on one element (bad member name inside a badly named type, retyped argument on a "
+        "non-covariant field): all have to be reported. "
         "Non-trivial: >= 1 interface implementation, or k >= 2, or a validate() after a change of validity; distinct = "
         "(spec, order, injected labels).")
 ASSUMPTIONS = [
